@@ -173,3 +173,38 @@ func VerifC10_RejectedAddType() {
 	x2, e2 := ref.Example()
 	zzverif.Assert(string(x1) == string(x2) && vErrCode(e1) == vErrCode(e2), "Example() is not affected by the refused call")
 }
+
+// VerifC10_SharedTypeAfterFailure: ONE type object with `allOf: ["@B", "@M"]`
+// is registered in a first root whose compile fails half-way (@M missing or
+// not an object there) and then in a second root where everything it needs is
+// registered: the second root gives the results a fresh process gives.
+func VerifC10_SharedTypeAfterFailure() {
+	zzverif.Expect("first-fails")
+	d := string([]byte{zzverif.Digit("d")})
+	allOf := []string{`["@B", "@M"]`, `["@M", "@B"]`, `"@M"`}[zzverif.IntRange("allOf", 0, 2)]
+	typeText := "{ // {allOf: " + allOf + "}\n  \"a\": " + d + "\n}"
+	mk := func(a *JSchema, m string) *JSchema {
+		r := New("r", `{"x": @A}`)
+		_ = r.AddType("@A", a)
+		_ = r.AddType("@B", New("@B", `{"b": 2}`))
+		if m != "" {
+			_ = r.AddType("@M", New("@M", m))
+		}
+		return r
+	}
+	shared := New("@A", typeText)
+	first := mk(shared, []string{"", `1`, `[1]`}[zzverif.IntRange("firstM", 0, 2)])
+	if zzverif.Bool("viaExample") {
+		_, err := first.Example()
+		zzverif.Assert(err != nil, "the first root is refused")
+	} else {
+		zzverif.Assert(first.Check() != nil, "the first root is refused")
+	}
+	zzverif.Reach("first-fails")
+	second := mk(shared, `{"m": 3}`)
+	ref := mk(New("@A", typeText), `{"m": 3}`)
+	zzverif.Assert(vErrCode(second.Check()) == vErrCode(ref.Check()), "Check() of the second root does not depend on the failed first one")
+	x1, e1 := second.Example()
+	x2, e2 := ref.Example()
+	zzverif.Assert(string(x1) == string(x2) && vErrCode(e1) == vErrCode(e2), "Example() of the second root does not depend on the failed first one")
+}
